@@ -41,6 +41,10 @@ package eval
 
 // ComparableValue embeds types.Value: both are represented by the same sort.
 //@ alias github.com/cedar-policy/cedar-go/internal/eval.ComparableValue = github.com/cedar-policy/cedar-go/types.Value
+// the three scope interfaces are sub-interfaces of IsScopeNode: one sort
+//@ alias github.com/cedar-policy/cedar-go/x/exp/ast.IsPrincipalScopeNode = github.com/cedar-policy/cedar-go/x/exp/ast.IsScopeNode
+//@ alias github.com/cedar-policy/cedar-go/x/exp/ast.IsActionScopeNode = github.com/cedar-policy/cedar-go/x/exp/ast.IsScopeNode
+//@ alias github.com/cedar-policy/cedar-go/x/exp/ast.IsResourceScopeNode = github.com/cedar-policy/cedar-go/x/exp/ast.IsScopeNode
 //@ func (ComparableValue) LessThan
 //@   pure
 //@ func (ComparableValue) LessThanOrEqual
@@ -167,6 +171,88 @@ package eval
 //@   inline
 //@ func tryFoldUnary
 //@   inline
+
+// foldPolicy works on a copy: the policy it is given (the one MarshalCedar,
+// MarshalJSON and AST() show) is left as it was, the scope and the effect are
+// carried over, and every condition body is folded in place in the copy.
+//@ func foldPolicy
+//@   props C04
+//@   pure
+//@   requires p != nil
+//@   results r
+//@   ensures *p == old(*p)
+//@   ensures r != nil && r.Effect == p.Effect && r.Principal == p.Principal && r.Action == p.Action && r.Resource == p.Resource
+//@   ensures len(r.Conditions) == len(p.Conditions)
+//@   ensures forall j int :: (0 <= j && j < len(p.Conditions)) ==> (r.Conditions[j].Condition == p.Conditions[j].Condition && r.Conditions[j].Body == fold#0(p.Conditions[j].Body))
+//@   loop 1
+//@     invariant len(p2.Conditions) == len(p.Conditions) && p2.Effect == p.Effect && p2.Principal == p.Principal && p2.Action == p.Action && p2.Resource == p.Resource
+//@     invariant forall j int :: (0 <= j && j < $i) ==> (p2.Conditions[j].Condition == p.Conditions[j].Condition && p2.Conditions[j].Body == fold#0(p.Conditions[j].Body))
+//@ frameclean C04 foldPolicy
+
+// ------------------------------------------- policy -> expression (C02, C04)
+// A policy is the conjunction, in this order, of its scope tests (principal,
+// action, resource; `true` when all three are unconstrained) and its
+// conditions (`unless` negated), nested to the right.
+//@ spec func trueNode() ast.IsNode = ast.IsNode(mkstruct(ast.NodeValue, types.Value(types.Boolean(true))))
+//@ spec func varOf(name string) ast.NodeTypeVariable = mkstruct(ast.NodeTypeVariable, types.String(name))
+//@ spec func litNode(v types.Value) ast.IsNode = ast.IsNode(mkstruct(ast.NodeValue, v))
+//@ spec func condNode(c ast.ConditionType) ast.IsNode = c.Condition == ast.ConditionUnless ? ast.IsNode(mkstruct(ast.NodeTypeNot, mkstruct(ast.UnaryNode, c.Body))) : c.Body
+//@ spec func chain(ns []ast.Node, i int) ast.IsNode
+//@ axiom chain_last: forall ns []ast.Node, i int :: { chain(ns, i) } (i >= 0 && i == len(ns) - 1) ==> chain(ns, i) == ns[i].v
+//@ axiom chain_step: forall ns []ast.Node, i int :: { chain(ns, i) } (0 <= i && i < len(ns) - 1) ==> chain(ns, i) == ast.IsNode(mkstruct(ast.NodeTypeAnd, mkstruct(ast.BinaryNode, ns[i].v, chain(ns, i + 1))))
+//@ spec func pAll(p *ast.Policy) bool = p.Principal is ast.ScopeTypeAll
+//@ spec func aAll(p *ast.Policy) bool = p.Action is ast.ScopeTypeAll
+//@ spec func rAll(p *ast.Policy) bool = p.Resource is ast.ScopeTypeAll
+//@ spec func scopeLen(p *ast.Policy) int = (pAll(p) && aAll(p) && rAll(p)) ? 1 : ((pAll(p) ? 0 : 1) + (aAll(p) ? 0 : 1) + (rAll(p) ? 0 : 1))
+//@ spec func scopePart(p *ast.Policy, ns []ast.Node) bool = len(ns) >= scopeLen(p) && ((pAll(p) && aAll(p) && rAll(p)) ==> ns[0].v == trueNode()) && (!pAll(p) ==> ns[0].v == scopeToNode#0(varOf("principal"), ast.IsScopeNode(p.Principal)).v) && (!aAll(p) ==> ns[pAll(p) ? 0 : 1].v == scopeToNode#0(varOf("action"), ast.IsScopeNode(p.Action)).v) && (!rAll(p) ==> ns[(pAll(p) ? 0 : 1) + (aAll(p) ? 0 : 1)].v == scopeToNode#0(varOf("resource"), ast.IsScopeNode(p.Resource)).v)
+//@ spec func policyNodes(p *ast.Policy, ns []ast.Node) bool = scopePart(p, ns) && len(ns) == scopeLen(p) + len(p.Conditions) && (forall j int :: (0 <= j && j < len(p.Conditions)) ==> ns[scopeLen(p) + j].v == condNode(p.Conditions[j]))
+
+//@ func PolicyToNode
+//@   props C02 C04
+//@   pure
+//@   calldepth 6
+//@   requires p != nil
+//@   results r
+//@   ensures exists ns []ast.Node :: { policyNodes(p, ns) } policyNodes(p, ns) && r.v == chain(ns, 0)
+//@   loop 1
+//@     invariant len(nodes) == scopeLen(p) + $i
+//@     invariant (pAll(p) && aAll(p) && rAll(p)) ==> nodes[0].v == trueNode()
+//@     invariant !pAll(p) ==> nodes[0].v == scopeToNode#0(varOf("principal"), ast.IsScopeNode(p.Principal)).v
+//@     invariant !aAll(p) ==> nodes[pAll(p) ? 0 : 1].v == scopeToNode#0(varOf("action"), ast.IsScopeNode(p.Action)).v
+//@     invariant !rAll(p) ==> nodes[(pAll(p) ? 0 : 1) + (aAll(p) ? 0 : 1)].v == scopeToNode#0(varOf("resource"), ast.IsScopeNode(p.Resource)).v
+//@     invariant forall j int :: (0 <= j && j < $i) ==> nodes[scopeLen(p) + j].v == condNode(p.Conditions[j])
+//@   loop 2
+//@     invariant -1 <= i && i <= len(nodes) - 2 && res.v == chain(nodes, i + 1)
+
+//@ func scopeToNode
+//@   props C02
+//@   pure
+//@   calldepth 6
+//@   results out
+//@   ensures (in is ast.ScopeTypeAll) ==> out.v == trueNode()
+//@   ensures (in is ast.ScopeTypeEq) ==> out.v == ast.IsNode(mkstruct(ast.NodeTypeEquals, mkstruct(ast.BinaryNode, ast.IsNode(varNode), litNode(types.Value(in.(ast.ScopeTypeEq).Entity)))))
+//@   ensures (in is ast.ScopeTypeIn) ==> out.v == ast.IsNode(mkstruct(ast.NodeTypeIn, mkstruct(ast.BinaryNode, ast.IsNode(varNode), litNode(types.Value(in.(ast.ScopeTypeIn).Entity)))))
+//@   ensures (in is ast.ScopeTypeInSet) ==> ((out.v is ast.NodeTypeIn) && out.v.(ast.NodeTypeIn).Left == ast.IsNode(varNode) && (out.v.(ast.NodeTypeIn).Right is ast.NodeValue) && (out.v.(ast.NodeTypeIn).Right.(ast.NodeValue).Value is types.Set) && (forall x types.Value :: setHas(out.v.(ast.NodeTypeIn).Right.(ast.NodeValue).Value.(types.Set), x) == (exists j int :: 0 <= j && j < len(in.(ast.ScopeTypeInSet).Entities) && valEq(x, types.Value(in.(ast.ScopeTypeInSet).Entities[j])))))
+//@   ensures (in is ast.ScopeTypeIs) ==> out.v == ast.IsNode(mkstruct(ast.NodeTypeIs, ast.IsNode(varNode), in.(ast.ScopeTypeIs).Type))
+//@   ensures (in is ast.ScopeTypeIsIn) ==> out.v == ast.IsNode(mkstruct(ast.NodeTypeIsIn, mkstruct(ast.NodeTypeIs, ast.IsNode(varNode), in.(ast.ScopeTypeIsIn).Type), litNode(types.Value(in.(ast.ScopeTypeIsIn).Entity))))
+//@   loop 1
+//@     invariant len(vals) == len(t.Entities) && !isnil(vals) && (forall j int :: (0 <= j && j < $i) ==> vals[j] == types.Value(t.Entities[j]))
+
+// The evaluator a policy runs is the one wired from the folded copy.
+//@ func Compile
+//@   props C04 C02
+//@   requires p != nil
+//@   results r
+//@   ensures r.eval == ToEval#0(PolicyToNode#0(foldPolicy#0(p)).v)
+//@ frameclean C04 Compile
+// Steps of the induction along the conjunction PolicyToNode builds: if every
+// conjunct of the folded policy has the result of the corresponding conjunct
+// of the original on env, so has the conjunction (the fold_sem_* lemmas below
+// give the premise for the condition bodies; the scope conjuncts are the same
+// nodes). The induction schema itself is applied outside the solver.
+//@ lemma C04 policy_sem_cond dispatch Evaler.Eval@notEval: forall c ast.ConditionType, d ast.ConditionType, env Env :: (d.Condition == c.Condition && resEq(ToEval#0(d.Body), ToEval#0(c.Body), env)) ==> resEq(ToEval#0(condNode(d)), ToEval#0(condNode(c)), env)
+//@ lemma C04 policy_sem_last: forall ns []ast.Node, ms []ast.Node, i int, env Env :: (len(ns) == len(ms) && i >= 0 && i == len(ns) - 1 && resEq(ToEval#0(ms[i].v), ToEval#0(ns[i].v), env)) ==> resEq(ToEval#0(chain(ms, i)), ToEval#0(chain(ns, i)), env)
+//@ lemma C04 policy_sem_step dispatch Evaler.Eval@andEval: forall ns []ast.Node, ms []ast.Node, i int, env Env :: (len(ns) == len(ms) && 0 <= i && i < len(ns) - 1 && resEq(ToEval#0(ms[i].v), ToEval#0(ns[i].v), env) && resEq(ToEval#0(chain(ms, i + 1)), ToEval#0(chain(ns, i + 1)), env)) ==> resEq(ToEval#0(chain(ms, i)), ToEval#0(chain(ns, i)), env)
 
 // ---- generated by /verif/tools/gen_eval_contracts.py (regular part) ----
 
@@ -797,6 +883,40 @@ package eval
 //@ spec func isLit(x ast.IsNode) bool = x is ast.NodeValue
 //@ spec func emptyEnv() Env = mkstruct(Env, types.EntityGetter(emptymap(types.EntityMap)), nil, nil, nil, nil)
 //@ spec func foldOutcome(r ast.IsNode, rebuilt ast.IsNode, lits bool) bool = (r == rebuilt) || (lits && evE(ToEval#0(rebuilt), emptyEnv()) == nil && r == ast.IsNode(mkstruct(ast.NodeValue, evV(ToEval#0(rebuilt), emptyEnv()))))
+// Semantic step of C04, one lemma per operator: if folding preserves the
+// result of every child on every environment (induction hypothesis), it
+// preserves the result of the node. Proved from the structural contract of
+// fold above, the wiring contract of ToEval and the Eval contract of that
+// operator's evaluator (C01).
+//@ spec func foldIH(c ast.IsNode, env Env) bool = resEq(ToEval#0(fold#0(c)), ToEval#0(c), env)
+//@ lemma C04 fold_sem_And dispatch Evaler.Eval@andEval@literalEval: forall n ast.IsNode, env Env :: (n is ast.NodeTypeAnd && foldIH(n.(ast.NodeTypeAnd).Left, env) && foldIH(n.(ast.NodeTypeAnd).Right, env)) ==> resEq(ToEval#0(fold#0(n)), ToEval#0(n), env)
+//@ lemma C04 fold_sem_Or dispatch Evaler.Eval@orEval@literalEval: forall n ast.IsNode, env Env :: (n is ast.NodeTypeOr && foldIH(n.(ast.NodeTypeOr).Left, env) && foldIH(n.(ast.NodeTypeOr).Right, env)) ==> resEq(ToEval#0(fold#0(n)), ToEval#0(n), env)
+//@ lemma C04 fold_sem_Equals dispatch Evaler.Eval@equalEval@literalEval: forall n ast.IsNode, env Env :: (n is ast.NodeTypeEquals && foldIH(n.(ast.NodeTypeEquals).Left, env) && foldIH(n.(ast.NodeTypeEquals).Right, env)) ==> resEq(ToEval#0(fold#0(n)), ToEval#0(n), env)
+//@ lemma C04 fold_sem_NotEquals dispatch Evaler.Eval@notEqualEval@literalEval: forall n ast.IsNode, env Env :: (n is ast.NodeTypeNotEquals && foldIH(n.(ast.NodeTypeNotEquals).Left, env) && foldIH(n.(ast.NodeTypeNotEquals).Right, env)) ==> resEq(ToEval#0(fold#0(n)), ToEval#0(n), env)
+//@ lemma C04 fold_sem_GreaterThan dispatch Evaler.Eval@comparableValueGreaterThanEval@literalEval: forall n ast.IsNode, env Env :: (n is ast.NodeTypeGreaterThan && foldIH(n.(ast.NodeTypeGreaterThan).Left, env) && foldIH(n.(ast.NodeTypeGreaterThan).Right, env)) ==> resEq(ToEval#0(fold#0(n)), ToEval#0(n), env)
+//@ lemma C04 fold_sem_GreaterThanOrEqual dispatch Evaler.Eval@comparableValueGreaterThanOrEqualEval@literalEval: forall n ast.IsNode, env Env :: (n is ast.NodeTypeGreaterThanOrEqual && foldIH(n.(ast.NodeTypeGreaterThanOrEqual).Left, env) && foldIH(n.(ast.NodeTypeGreaterThanOrEqual).Right, env)) ==> resEq(ToEval#0(fold#0(n)), ToEval#0(n), env)
+//@ lemma C04 fold_sem_LessThan dispatch Evaler.Eval@comparableValueLessThanEval@literalEval: forall n ast.IsNode, env Env :: (n is ast.NodeTypeLessThan && foldIH(n.(ast.NodeTypeLessThan).Left, env) && foldIH(n.(ast.NodeTypeLessThan).Right, env)) ==> resEq(ToEval#0(fold#0(n)), ToEval#0(n), env)
+//@ lemma C04 fold_sem_LessThanOrEqual dispatch Evaler.Eval@comparableValueLessThanOrEqualEval@literalEval: forall n ast.IsNode, env Env :: (n is ast.NodeTypeLessThanOrEqual && foldIH(n.(ast.NodeTypeLessThanOrEqual).Left, env) && foldIH(n.(ast.NodeTypeLessThanOrEqual).Right, env)) ==> resEq(ToEval#0(fold#0(n)), ToEval#0(n), env)
+//@ lemma C04 fold_sem_Mult dispatch Evaler.Eval@multiplyEval@literalEval: forall n ast.IsNode, env Env :: (n is ast.NodeTypeMult && foldIH(n.(ast.NodeTypeMult).Left, env) && foldIH(n.(ast.NodeTypeMult).Right, env)) ==> resEq(ToEval#0(fold#0(n)), ToEval#0(n), env)
+//@ lemma C04 fold_sem_Contains dispatch Evaler.Eval@containsEval@literalEval: forall n ast.IsNode, env Env :: (n is ast.NodeTypeContains && foldIH(n.(ast.NodeTypeContains).Left, env) && foldIH(n.(ast.NodeTypeContains).Right, env)) ==> resEq(ToEval#0(fold#0(n)), ToEval#0(n), env)
+//@ lemma C04 fold_sem_ContainsAll dispatch Evaler.Eval@containsAllEval@literalEval: forall n ast.IsNode, env Env :: (n is ast.NodeTypeContainsAll && foldIH(n.(ast.NodeTypeContainsAll).Left, env) && foldIH(n.(ast.NodeTypeContainsAll).Right, env)) ==> resEq(ToEval#0(fold#0(n)), ToEval#0(n), env)
+//@ lemma C04 fold_sem_ContainsAny dispatch Evaler.Eval@containsAnyEval@literalEval: forall n ast.IsNode, env Env :: (n is ast.NodeTypeContainsAny && foldIH(n.(ast.NodeTypeContainsAny).Left, env) && foldIH(n.(ast.NodeTypeContainsAny).Right, env)) ==> resEq(ToEval#0(fold#0(n)), ToEval#0(n), env)
+//@ lemma C04 fold_sem_Sub dispatch Evaler.Eval@subtractEval@literalEval: forall n ast.IsNode, env Env :: (n is ast.NodeTypeSub && foldIH(n.(ast.NodeTypeSub).Left, env) && foldIH(n.(ast.NodeTypeSub).Right, env)) ==> resEq(ToEval#0(fold#0(n)), ToEval#0(n), env)
+//@ lemma C04 fold_sem_Add dispatch Evaler.Eval@addEval@literalEval: forall n ast.IsNode, env Env :: (n is ast.NodeTypeAdd && foldIH(n.(ast.NodeTypeAdd).Left, env) && foldIH(n.(ast.NodeTypeAdd).Right, env)) ==> resEq(ToEval#0(fold#0(n)), ToEval#0(n), env)
+//@ lemma C04 fold_sem_In dispatch Evaler.Eval@inEval@literalEval: forall n ast.IsNode, env Env :: (n is ast.NodeTypeIn && foldIH(n.(ast.NodeTypeIn).Left, env) && foldIH(n.(ast.NodeTypeIn).Right, env)) ==> resEq(ToEval#0(fold#0(n)), ToEval#0(n), env)
+//@ lemma C04 fold_sem_GetTag dispatch Evaler.Eval@getTagEval@literalEval: forall n ast.IsNode, env Env :: (n is ast.NodeTypeGetTag && foldIH(n.(ast.NodeTypeGetTag).Left, env) && foldIH(n.(ast.NodeTypeGetTag).Right, env)) ==> resEq(ToEval#0(fold#0(n)), ToEval#0(n), env)
+//@ lemma C04 fold_sem_HasTag dispatch Evaler.Eval@hasTagEval@literalEval: forall n ast.IsNode, env Env :: (n is ast.NodeTypeHasTag && foldIH(n.(ast.NodeTypeHasTag).Left, env) && foldIH(n.(ast.NodeTypeHasTag).Right, env)) ==> resEq(ToEval#0(fold#0(n)), ToEval#0(n), env)
+//@ lemma C04 fold_sem_Negate dispatch Evaler.Eval@negateEval@literalEval: forall n ast.IsNode, env Env :: (n is ast.NodeTypeNegate && foldIH(n.(ast.NodeTypeNegate).Arg, env)) ==> resEq(ToEval#0(fold#0(n)), ToEval#0(n), env)
+//@ lemma C04 fold_sem_Not dispatch Evaler.Eval@notEval@literalEval: forall n ast.IsNode, env Env :: (n is ast.NodeTypeNot && foldIH(n.(ast.NodeTypeNot).Arg, env)) ==> resEq(ToEval#0(fold#0(n)), ToEval#0(n), env)
+//@ lemma C04 fold_sem_IsEmpty dispatch Evaler.Eval@isEmptyEval@literalEval: forall n ast.IsNode, env Env :: (n is ast.NodeTypeIsEmpty && foldIH(n.(ast.NodeTypeIsEmpty).Arg, env)) ==> resEq(ToEval#0(fold#0(n)), ToEval#0(n), env)
+//@ lemma C04 fold_sem_Access dispatch Evaler.Eval@attributeAccessEval@literalEval@errorEval: forall n ast.IsNode, env Env :: (n is ast.NodeTypeAccess && foldIH(n.(ast.NodeTypeAccess).Arg, env)) ==> resEq(ToEval#0(fold#0(n)), ToEval#0(n), env)
+//@ lemma C04 fold_sem_Has dispatch Evaler.Eval@hasEval@literalEval@errorEval: forall n ast.IsNode, env Env :: (n is ast.NodeTypeHas && foldIH(n.(ast.NodeTypeHas).Arg, env)) ==> resEq(ToEval#0(fold#0(n)), ToEval#0(n), env)
+//@ lemma C04 fold_sem_Like dispatch Evaler.Eval@likeEval@literalEval: forall n ast.IsNode, env Env :: (n is ast.NodeTypeLike && foldIH(n.(ast.NodeTypeLike).Arg, env)) ==> resEq(ToEval#0(fold#0(n)), ToEval#0(n), env)
+//@ lemma C04 fold_sem_IfThenElse dispatch Evaler.Eval@ifThenElseEval@literalEval: forall n ast.IsNode, env Env :: (n is ast.NodeTypeIfThenElse && foldIH(n.(ast.NodeTypeIfThenElse).If, env) && foldIH(n.(ast.NodeTypeIfThenElse).Then, env) && foldIH(n.(ast.NodeTypeIfThenElse).Else, env)) ==> resEq(ToEval#0(fold#0(n)), ToEval#0(n), env)
+//@ lemma C04 fold_sem_Is dispatch Evaler.Eval@isEval@literalEval: forall n ast.IsNode, env Env :: (n is ast.NodeTypeIs && foldIH(n.(ast.NodeTypeIs).Left, env)) ==> resEq(ToEval#0(fold#0(n)), ToEval#0(n), env)
+//@ lemma C04 fold_sem_IsIn dispatch Evaler.Eval@isInEval@literalEval: forall n ast.IsNode, env Env :: (n is ast.NodeTypeIsIn && foldIH(n.(ast.NodeTypeIsIn).Left, env) && foldIH(n.(ast.NodeTypeIsIn).Entity, env)) ==> resEq(ToEval#0(fold#0(n)), ToEval#0(n), env)
+//@ lemma C04 fold_sem_leaf: forall n ast.IsNode, env Env :: (n is ast.NodeValue || n is ast.NodeTypeVariable) ==> resEq(ToEval#0(fold#0(n)), ToEval#0(n), env)
+
 //@ func fold
 //@   props C04
 //@   pure
@@ -841,5 +961,3 @@ package eval
 //@     invariant len(el) == len(nodes) && !isnil(el) && (forall j int :: (0 <= j && j < $i) ==> (el[j].Key == v.Elements[j].Key && el[j].Value == nodes[j]))
 //@   loop 5
 //@     invariant len(el) == len(values) && !isnil(el)
-
-
